@@ -209,7 +209,9 @@ def limiter_monitor(ss, viol, probes, tol, after_event=False):
                 probes['antiwindup_checked'] = probes.get('antiwindup_checked', 0) + 1
                 x = np.asarray(d.state.v, float)
                 if not d.no_upper:
-                    bad = x > up + tau(up)
+                    # right after a dispatched event (a fault clearance writes stored pre-fault values into the algebraic vector, a
+                    # variable limit among them) state and limit belong to different instants until the next solve: not judged
+                    bad = (x > up + tau(up)) & (not after_event)
                     if np.any(bad):
                         j = int(np.where(bad)[0][0])
                         inward = bool(np.asarray(d.state.e, float)[j] < 0)
@@ -222,7 +224,7 @@ def limiter_monitor(ss, viol, probes, tol, after_event=False):
                                       (mdl.class_name, name), kind='AntiWindup'))
                         return
                 if not d.no_lower:
-                    bad = x < lo - tau(lo)
+                    bad = (x < lo - tau(lo)) & (not after_event)
                     if np.any(bad):
                         j = int(np.where(bad)[0][0])
                         inward = bool(np.asarray(d.state.e, float)[j] > 0)
